@@ -5,6 +5,7 @@
 //     call <key>          call one entry (all its instances and operand forms; the key of a form names its entry), after the entries of
 //                         the same function registered before it
 //     recheck             the pool containers gain a member, then every node returned so far is read again (`L` lines)
+//     scale <n>           one Lexicon of its own is given n variables with distinct 31-character names, all read again afterwards (`Z` line)
 //     grow <kind> <n> [salt]   C09 growth history: kind = scope|plist|xlist|enum|bases ; add n members, observe after each
 //     list                print the keys of all entries (one `E <key>` line each)
 //
@@ -158,12 +159,20 @@ namespace {
       std::vector<const ipr::Sequence<ipr::Type>*> type_seqs;
       std::vector<const impl::Warehouse<ipr::Type>*> whs;
       std::vector<const ipr::Literal*> literals;
+      std::vector<const ipr::Type*> plain_types;      // types that only the get_qualified entries qualify (the `#near-equal` form qualifies the pool types)
       std::vector<const ipr::Type*> qtypes;           // types with top-level cv-qualifiers
       std::vector<const ipr::Decl*> redecls;          // second declarations of a (name, type) pair in one scope
       std::vector<const ipr::Template*> retemplates;  // redeclared templates
       std::vector<const ipr::Fundecl*> fundecls;
       std::vector<const ipr::Enumerator*> enumerators;
       std::vector<const ipr::Base_type*> bases;
+      std::deque<impl::Module> module_store;          // modules (and their interface units) made by the probe
+      std::deque<std::unique_ptr<impl::Translation_unit>> unit_store;
+      std::vector<const ipr::Module*> modules;
+      std::vector<const ipr::Capture_specification*> capture_specs;
+      std::vector<const cf::Morphism*> morphisms;
+      std::vector<const cf::Indirector*> indirectors;
+      std::vector<const cf::Requirement*> requirements;
 
       // ---- operand FORMS (see `Mode` below): how an operand was built must not matter to the node that is given it
       // every node a factory function (by name, whatever the overload / documented form) has returned so far: operands for `#nested`
@@ -238,6 +247,8 @@ namespace {
    struct Run;
    // C09: "mutate, then re-read the type" -- defined after Run
    template<class X> void mutate_pass(Run&, X&);
+   // C02 #lists-filled: fill every member sequence of a result (or only count them: `dry`) -- defined after Run
+   template<class X> int fill_lists(Run&, X&, bool dry);
 
    // ---------------------------------------------------------------------------------------------- operand forms
    // What a node reports about an operand does not depend on HOW that operand was built, on the state it is in, or on when the client
@@ -251,13 +262,22 @@ namespace {
    //                       Type slots next to them receive types that are not the natural type of any such word
    //   #list-filled-later  an Expr_list (Block) slot receives a fresh container that is EMPTY at the call: it stays empty until after the
    //                       first read, or is filled right after the call, or was filled before and grows after the first read
-   enum Mode { BASE = 0, NESTED, RESOLVED, RESERVED, FILLED };
-   const char* const mode_suffix[] = { "", "#nested", "#resolved-operand", "#reserved-spelling", "#list-filled-later" };
+   //   #near-equal         the request comes right BEFORE / right AFTER a request to the same function that differs from it in exactly ONE
+   //                       operand, and only in a component a factory might regard as insignificant: a Type slot receives T in one request
+   //                       and a cv-qualified T in the other, a Function slot two function types that differ only in throws() / only in
+   //                       their transfer / only in (the qualification of) their target, a Forall slot two that differ in the qualification
+   //                       of the target; everything else -- the name, the word, the scope the declaration goes to -- is the same
+   //   #lists-filled       every member sequence of the RESULT that the client fills through the implementation class (imports, purview,
+   //                       exports of a unit; attributes and captures of a lambda; suffix and attributes of a declarator species; ...) receives,
+   //                       right after the call, members of its own: the j-th sequence j+1 of them, no member given to two sequences
+   enum Mode { BASE = 0, NESTED, RESOLVED, RESERVED, FILLED, NEAR, LISTS };
+   const char* const mode_suffix[] = { "", "#nested", "#resolved-operand", "#reserved-spelling", "#list-filled-later", "#near-equal", "#lists-filled" };
 
    struct Form_info {                                // what the base run of an entry told about it
       bool known = false;
       std::vector<std::string> sorts;
       bool is_expr = false, is_type = false, is_qualified = false, is_expr_list = false;
+      int nlists = 0;                                // member sequences of the result that a client fills through its implementation class
       bool has(const char* s) const { return std::find(sorts.begin(), sorts.end(), s) != sorts.end(); }
    };
 
@@ -269,6 +289,8 @@ namespace {
       bool every_word = false;
       std::vector<std::string> origins;              // #nested: the entries of this function that have answered so far
       mutable std::deque<Ctx::Made_by> candidates;   // ... and what they answered so far (this form's own answers join them: deeper nesting)
+      int nvariants = 1;                             // #near-equal: ways two Function operands differ (throws / transfer / target), by instance
+      int nearvariant(int inst) const { return (inst / (nvar * nstates)) % nvariants; }
    };
 
    bool form_applies(Mode m, const Form_info& i)
@@ -278,6 +300,8 @@ namespace {
       case RESOLVED: return i.has("Expr");
       case RESERVED: return i.has("Type") and (i.has("String") or i.has("word_view") or i.has("Name") or i.has("Identifier"));
       case FILLED: return i.has("Expr_list") and not i.is_expr_list;
+      case NEAR: return not i.is_qualified and (i.has("Type") or i.has("Function") or i.has("Forall"));
+      case LISTS: return i.nlists > 0;
       default: return false;
       }
    }
@@ -345,6 +369,7 @@ namespace {
          }
          if (info != nullptr and not info->known) {
             info->known = true;
+            if constexpr (std::is_class_v<X>) info->nlists = fill_lists(*this, const_cast<X&>(x), true);
             info->sorts = sorts;
             info->is_expr = e != nullptr; info->is_type = t != nullptr; info->is_qualified = q; info->is_expr_list = xl;
          }
@@ -361,6 +386,42 @@ namespace {
          v.push_back({origin, e, t});
       }
       std::string origin;                              // the entry (base key) this run belongs to
+      // ---- #near-equal: the NEIGHBOUR request (`sibling`) runs the same entry body with the same operand choices, except that in the
+      // selected slot one of the two requests is given the near-equal operand; nothing of the neighbour is printed.  Containers made by
+      // the body through `shared_container` (the scope / region / class a declaration goes to) are the same object for both requests.
+      bool sibling = false;
+      struct Shared { std::vector<void*> objs; };
+      Shared* shared = nullptr;
+      std::size_t nshared = 0;
+      template<class X, class F>
+      X& shared_container(F&& make, const char* sort)
+      {
+         X* x = nullptr;
+         if (shared != nullptr and nshared < shared->objs.size()) x = static_cast<X*>(shared->objs[nshared]);
+         else { x = make(); if (shared != nullptr) shared->objs.push_back(x); }
+         ++nshared;
+         return fresh(*x, sort);
+      }
+      bool near_mode() const { return form != nullptr and form->mode == NEAR; }
+      int near_state() const { return state(); }      // bit 0: the neighbour comes AFTER this call (before the first read); bit 1: THIS request has the near-equal operand
+      bool wants_near(int p) const { return near_mode() and selected(p) and (sibling != ((near_state() & 2) != 0)); }
+      const ipr::Type& near_type(const ipr::Type& t)
+      {
+         auto g = gen(7400 + 16 * inst + pos());
+         ++c.stats["forms: near-equal operands (cv-qualified type / function type differing in one component)"];
+         return c.lex.get_qualified(Qualifiers{std::uintptr_t{1} + g() % 3}, t);
+      }
+      const ipr::Function& near_function(const ipr::Function& f)
+      {
+         auto g = gen(7410 + 16 * inst + pos());
+         auto& L = c.lex;
+         ++c.stats["forms: near-equal operands (cv-qualified type / function type differing in one component)"];
+         switch (form->nearvariant(inst)) {
+         case 0: return g() % 2 ? L.get_function(f.source(), f.target(), L.true_value()) : L.get_function(f.source(), f.target(), *c.exprs[g() % c.exprs.size()]);
+         case 1: return L.get_function(f.source(), f.target(), *c.transfers[2 + g() % 2]);
+         default: return L.get_function(f.source(), near_type(f.target()));
+         }
+      }
 
       Run(Ctx& cc, const std::string& k, int i, bool rep, std::string first = {})
          : c{cc}, key{k}, inst{i}, repeat{rep}, first_result{std::move(first)}, watermark{cc.ob.count()} { }
@@ -368,14 +429,19 @@ namespace {
       std::mt19937_64 gen(int salt) const { return std::mt19937_64{mix(mix(mix(mix(c.seed, hash_str(key)), inst / 2), salt), attempt)}; }
 
       template<class T>
-      const T& pick(int id, const char* sort, const std::vector<const T*>& pool)
+      const T& pick_quiet(int id, const std::vector<const T*>& pool)
       {
          const int j = cursor[id]++;
          std::vector<int> ord(pool.size());
          for (std::size_t i = 0; i < ord.size(); ++i) ord[i] = static_cast<int>(i);
          auto g = gen(1000 + id);
          std::shuffle(ord.begin(), ord.end(), g);
-         const T& x = *pool.at(ord.at((2 * j + (inst & 1)) % pool.size()));
+         return *pool.at(ord.at((2 * j + (inst & 1)) % pool.size()));
+      }
+      template<class T>
+      const T& pick(int id, const char* sort, const std::vector<const T*>& pool)
+      {
+         const T& x = pick_quiet(id, pool);
          args.push_back(show(x));
          sorts.push_back(sort);
          return x;
@@ -496,6 +562,11 @@ namespace {
       {
          if (form != nullptr and form->mode == NESTED and selected(pos())) if (auto* m = nested(true)) return operand(*m->type, "Type", true);
          if (form != nullptr and form->mode == RESERVED) return odd_type();
+         if (near_mode()) {
+            const bool near = wants_near(pos());
+            const ipr::Type& t = pick_quiet(1, c.types);
+            return near ? operand(near_type(t), "Type", true) : operand(t, "Type", false);
+         }
          return pick(1, "Type", c.types);
       }
       const ipr::Expr& E()
@@ -521,8 +592,24 @@ namespace {
       }
       const ipr::Product& P() { return pick(6, "Product", c.products); }
       const ipr::Sum& SUM() { return pick(7, "Sum", c.sums); }
-      const ipr::Function& FN() { return pick(8, "Function", c.functions); }
-      const ipr::Forall& FA() { return pick(9, "Forall", c.foralls); }
+      const ipr::Function& FN()
+      {
+         if (near_mode()) {
+            const bool near = wants_near(pos());
+            const ipr::Function& f = pick_quiet(8, c.functions);
+            return near ? operand(near_function(f), "Function", true) : operand(f, "Function", false);
+         }
+         return pick(8, "Function", c.functions);
+      }
+      const ipr::Forall& FA()
+      {
+         if (near_mode()) {
+            const bool near = wants_near(pos());
+            const ipr::Forall& f = pick_quiet(9, c.foralls);
+            return near ? operand(c.lex.get_forall(f.source(), near_type(f.target())), "Forall", true) : operand(f, "Forall", false);
+         }
+         return pick(9, "Forall", c.foralls);
+      }
       const ipr::Template& TPL() { return pick(10, "Template", c.templates); }
       const ipr::Decl& D() { return pick(11, "Decl", c.decls); }
       const ipr::Parameter& PARM() { return pick(12, "Parameter", c.parms); }
@@ -583,6 +670,7 @@ namespace {
          return cell;
       }
       const ipr::Type& QT() { return pick(40, "Qualified_type", c.qtypes); }
+      const ipr::Type& PT() { return pick(41, "Type", c.plain_types); }
       const ipr::Decl& REDECL() { return pick(35, "Redeclaration", c.redecls); }
       const ipr::Template& RETPL() { return pick(36, "Redeclared_template", c.retemplates); }
       const ipr::Fundecl& FUNDECL() { return pick(37, "Fundecl", c.fundecls); }
@@ -731,6 +819,8 @@ namespace {
       template<class X>
       void done(const X& x)
       {
+         if (sibling) { scrub(); return; }                 // the neighbour request of a #near-equal instance: made, not observed
+         if (form != nullptr and form->mode == LISTS and not repeat) fill_lists(*this, const_cast<X&>(x), false);
          scrub();
          result = c.ob.show(x);
          note(x);
@@ -911,6 +1001,53 @@ namespace {
       else { (void) r; (void) n; }
    }
 
+   // ---------------------------------------------------------------------------------------------- #lists-filled
+   // A node with several member sequences reports under each sequence accessor exactly the members given to THAT sequence.  The
+   // sequences a client fills are discovered from the result's implementation class (requires-expressions over the member names of
+   // include/ipr/impl, in the fixed order below -- `fillOrder` of IprProps/C02Table.lean lists the documented accessor of each in the
+   // same order); the j-th sequence of the node receives j+1 members, all members of one node distinct, recorded as further operands.
+   template<class X>
+   int fill_lists(Run& r, X& n, bool dry)
+   {
+      int j = 0;
+      if constexpr (std::is_class_v<X> and not std::is_const_v<X>) {
+         Ctx& c = r.c;
+         std::map<const void*, std::size_t> turn;               // per pool: members are handed out in turn, none twice
+         auto fill = [&](auto& seq, const char* sort, auto& pool) {
+            ++j;
+            if (dry) return;
+            std::size_t& t = turn[&pool];
+            for (int k = 0; k < j; ++k) {
+               auto* m = pool[(r.inst + t++) % pool.size()];
+               seq.push_back(m);
+               r.args.push_back(c.ob.show(*m));
+               r.sorts.push_back(sort);
+            }
+            ++c.stats["forms: member sequences of a result filled after the call"];
+         };
+#define FILL(MEMBER, SORT, POOL) \
+         if constexpr (requires { static_cast<impl::ref_sequence<std::remove_const_t<std::remove_pointer_t<std::decay_t<decltype(c.POOL[0])>>>>&>(n.MEMBER); }) \
+            fill(n.MEMBER, SORT, c.POOL);
+         FILL(modules_imported, "Module", modules)
+         FILL(owned_decls, "Decl", decls)
+         FILL(modules_exported, "Module", modules)
+         FILL(decls_exported, "Decl", decls)
+         FILL(attrs, "Attribute", attributes)
+         FILL(attr_seq, "Attribute", attributes)
+         FILL(env_spec, "Capture_specification", capture_specs)
+         FILL(args, "Expr", exprs)
+         FILL(morphisms, "Morphism", morphisms)
+         FILL(prefix, "Indirector", indirectors)
+         FILL(seq, "Elemental_initializer", elementals)
+         FILL(requirements, "Requirement", requirements)
+         FILL(ids, "Identifier", idents)
+         FILL(decl_seq, "Decl", decls)
+#undef FILL
+      }
+      else { (void) r; (void) n; (void) dry; }
+      return j;
+   }
+
    struct Entry {
       std::string key;
       std::function<void(Run&)> body;
@@ -931,9 +1068,24 @@ namespace {
          std::string last_vector;
          for (int attempt = 0; ; ++attempt) {
             const std::size_t before = c.ob.count();
+            // #near-equal: the neighbour request -- the same body, the same operand choices but for the selected slot -- is made right
+            // before this one, or right after it (between the factory call and the first read)
+            Run::Shared both;
+            auto neighbour = [&c, &e, &key, &fname, &both, form, inst, attempt] {
+               Run sib{c, key, inst, false};
+               sib.attempt = attempt;
+               sib.form = form; sib.fname = fname; sib.origin = e.key;
+               sib.sibling = true; sib.shared = &both;
+               e.body(sib);
+               ++c.stats["forms: requests made next to a near-equal request"];
+            };
+            const bool near = form != nullptr and form->mode == NEAR and attempt < 12;
+            const bool neighbour_first = near and ((inst / form->nvar) % form->nstates) % 2 == 0;
+            if (neighbour_first) neighbour();
             Run r{c, key, inst, false};
             r.attempt = attempt;
             r.form = form; r.fname = fname; r.origin = e.key; r.info = info;
+            if (near) { r.shared = &both; if (not neighbour_first) r.after_call.push_back(neighbour); }
             if (attempt < 12) {
                // dry check: a unified result that existed before this call would not show the objects created with it
                std::ostringstream sink;
@@ -976,7 +1128,7 @@ namespace {
       Form_info info;
       run_rows(c, e, e.key, fname, nullptr, &info, 2 * c.rounds);
       if (not info.known) return;
-      for (Mode m : { NESTED, RESOLVED, RESERVED, FILLED }) {
+      for (Mode m : { NESTED, RESOLVED, RESERVED, FILLED, NEAR, LISTS }) {
          if (not form_applies(m, info)) continue;
          Form f;
          f.mode = m;
@@ -985,8 +1137,10 @@ namespace {
             const std::string& s = info.sorts[i];
             if (m == NESTED and ((s == "Expr" and info.is_expr) or (s == "Type" and info.is_type))) f.slots.push_back(i);
             if (m == RESOLVED and s == "Expr") f.slots.push_back(i);
+            if (m == NEAR and (s == "Type" or s == "Function" or s == "Forall")) f.slots.push_back(i);
+            if (m == NEAR and s == "Function") f.nvariants = 3;
          }
-         f.nvar = std::max<int>(1, static_cast<int>(f.slots.size()) + (f.slots.size() >= 2 ? 1 : 0));
+         f.nvar = std::max<int>(1, static_cast<int>(f.slots.size()) + (f.slots.size() >= 2 and m != NEAR ? 1 : 0));
          if (m == NESTED) {
             for (auto& x : c.made_by[fname]) f.candidates.push_back(x);
             for (auto& x : f.candidates) if (std::find(f.origins.begin(), f.origins.end(), x.origin) == f.origins.end()) f.origins.push_back(x.origin);
@@ -994,7 +1148,9 @@ namespace {
             f.nstates = static_cast<int>(std::min<std::size_t>(f.origins.size(), 4));
          }
          if (m == RESOLVED or m == FILLED) f.nstates = 3;
+         if (m == NEAR) f.nstates = 4;
          int need = std::max(2, f.nvar * f.nstates) * c.rounds;
+         if (m == NEAR) need = f.nvar * f.nstates * f.nvariants;
          if (m == RESERVED) {
             f.every_word = info.has("String") or info.has("word_view");
             // (every word twice whatever the number of rounds: the four routes to a literal share one table of (type, spelling) pairs)
@@ -1058,6 +1214,12 @@ void Ctx::build_pools()
       const ipr::Type* mains[] = {base[0], base[1], base[2], &klass, base[4], base[3]};
       const std::uintptr_t cv[] = {1, 2, 3, 1, 6, 5};
       for (int i = 0; i < 6; ++i) pool("Qualified_type", qtypes, static_cast<const ipr::Type&>(L.get_qualified(Qualifiers{cv[i]}, *mains[i])));
+   }
+   for (int i = 0; i < 14; ++i) {
+      std::u8string digits;
+      for (char ch : std::to_string(7700 + i)) digits += static_cast<char8_t>(ch);
+      words.push_back(digits);
+      pool("Plain_type", plain_types, static_cast<const ipr::Type&>(L.get_pointer(L.get_array(*base[i % 10], *L.make_literal(L.int_type(), words.back())))));
    }
    // a universe of further pairwise distinct compound types: EVERY typed operand (expression, declaration, block, ...) gets a
    // type of its own, different from every Type operand, so that "the type of operand i" is never also "the type of operand j"
@@ -1185,6 +1347,12 @@ void Ctx::build_pools()
    for (int i = 0; i < 4; ++i) pool("Elemental_initializer", elementals, static_cast<const cf::Elemental_initializer&>(*forms->make_braced_provision()));
    for (int i = 0; i < 2; ++i) pool("Capture_specification::Named", nameds, static_cast<const ipr::Capture_specification::Named&>(caps.binding_capture(*idents[i], *exprs[i], Binding_mode::Copy)));
    for (int i = 0; i < 2; ++i) pool("Capture_specification::Named", nameds, static_cast<const ipr::Capture_specification::Named&>(caps.enclosing_local_capture(*vars[i], Binding_mode::Reference)));
+   // what a client fills the member sequences of a result with (`#lists-filled`): modules, capture specifications, declarator parts
+   for (int i = 0; i < 6; ++i) { module_store.emplace_back(L); pool("Module", modules, static_cast<const ipr::Module&>(module_store.back())); }
+   for (auto* n : nameds) pool("Capture_specification", capture_specs, static_cast<const ipr::Capture_specification&>(*n));
+   for (int i = 0; i < 4; ++i) pool("Morphism", morphisms, static_cast<const cf::Morphism&>(*forms->make_array_morphism()));
+   for (int i = 0; i < 4; ++i) pool("Indirector", indirectors, static_cast<const cf::Indirector&>(*forms->make_pointer_indirector(Qualifiers{static_cast<std::uintptr_t>(i)})));
+   for (int i = 0; i < 4; ++i) pool("Requirement", requirements, static_cast<const cf::Requirement&>(*forms->make_simple_requirement(*exprs[i])));
    // linkages, calling conventions, transfers (by value)
    for (int i = 0; i < 4; ++i) {
       linkages.push_back(&L.get_linkage(word(g)));
@@ -1293,6 +1461,7 @@ namespace {
    {
       static std::map<const void*, int> ids;
       r.scrub();
+      if (r.sibling) return;
       auto it = ids.emplace(identity, static_cast<int>(ids.size())).first;
       r.result = "v" + std::to_string(it->second);
       r.note(0);
@@ -1413,6 +1582,7 @@ static void register_expr_entries()
    // the operand dies and ANOTHER declaration (other name, other type) is constructed in the very same storage while the Lexicon
    // lives on: the id-expression of the newcomer reports the newcomer (everything is read while it is alive)
    ENTRY("expr_factory::make_id_expr(Decl)#recycled-storage", alignas(impl::Parameter) static unsigned char storage[sizeof(impl::Parameter)];
+         if (r.sibling) return;           // (no neighbour request while the one buffer is occupied)
          auto& n1 = r.N(); auto& t1 = r.T(); auto& n2 = r.N(); auto& t2 = r.T();
          auto* p = new (storage) impl::Parameter(n1, t1, Decl_position{0});
          const ipr::Id_expr& x1 = *L.make_id_expr(*p);
@@ -1425,7 +1595,7 @@ static void register_expr_entries()
          r.c.ob.forget(*p); p->~Parameter();)
    // the same with a declaration OWNED BY A TRANSLATION UNIT that is destroyed while the Lexicon serves the next unit, whose
    // declaration lands at the address of the dead one (recycling allocator above)
-   ENTRY("expr_factory::make_id_expr(Decl)#recycled-unit", auto& n1 = r.N(); auto& t1 = r.T(); auto& n2 = r.N(); auto& t2 = r.T();
+   ENTRY("expr_factory::make_id_expr(Decl)#recycled-unit", if (r.sibling) return; auto& n1 = r.N(); auto& t1 = r.T(); auto& n2 = r.N(); auto& t2 = r.T();
          const std::size_t mark = r.c.ob.count();
          recycler::Scope recycling;
          auto* u = new impl::Translation_unit(L);
@@ -1516,8 +1686,8 @@ static void register_type_entries()
    ENTRY("type_factory::get_as_type(Expr,Transfer)", auto& e = r.E(); auto& x = r.XF(); r.done(L.get_as_type(e, x));)
    ENTRY("type_factory::get_as_type(Expr,Transfer)#natural", auto& e = r.E(); auto& x = natural(r); r.done(L.get_as_type(e, x));)
    ENTRY("type_factory::get_array(Type,Expr)", auto& t = r.T(); auto& e = r.E(); r.done(L.get_array(t, e));)
-   ENTRY("type_factory::get_qualified(Qualifiers,Type)", auto& q = r.Q(); auto& t = r.T(); r.done(L.get_qualified(q, t));)
-   ENTRY("type_factory::get_qualified(Qualifiers,Type)#merge", auto& q = r.Q(); auto& t = r.c.types.at(r.gen(77)() % r.c.types.size());
+   ENTRY("type_factory::get_qualified(Qualifiers,Type)", auto& q = r.Q(); auto& t = r.PT(); r.done(L.get_qualified(q, t));)
+   ENTRY("type_factory::get_qualified(Qualifiers,Type)#merge", auto& q = r.Q(); auto& t = r.c.plain_types.at(r.gen(77)() % r.c.plain_types.size());
          const auto qv = static_cast<std::uintptr_t>(q);           // the operand's own qualifiers never contain the new ones
          auto& inner = L.get_qualified(Qualifiers{qv == 7 ? std::uintptr_t{2} : (((qv << 1) | (qv >> 2)) & 7)}, *t);
          r.extra(static_cast<const ipr::Type&>(inner), "Type");
@@ -1632,14 +1802,14 @@ static void register_type_entries()
 }
 
 #define REGION_DECL(FN, SORT2, PICK2) \
-   ENTRY("Region::" #FN "(Name," SORT2 ")", auto& reg = r.fresh(*r.c.unit.global_region()->make_subregion(), "Region"); auto& n = r.N(); auto& t = r.PICK2(); \
-         r.done(*reg.FN(n, t));)
+   ENTRY("Region::" #FN "(Name," SORT2 ")", auto& reg = r.shared_container<impl::Region>([&] { return r.c.unit.global_region()->make_subregion(); }, "Region"); \
+         auto& n = r.N(); auto& t = r.PICK2(); r.done(*reg.FN(n, t));)
 #define SCOPE_DECL(FN, SORT2, PICK2) \
-   ENTRY("Scope::" #FN "(Name," SORT2 ")", auto& sc = r.fresh(r.c.unit.global_region()->make_subregion()->scope, "Scope"); auto& n = r.N(); auto& t = r.PICK2(); \
-         r.done(*sc.FN(n, t));)
+   ENTRY("Scope::" #FN "(Name," SORT2 ")", auto& sc = r.shared_container<impl::Scope>([&] { return &r.c.unit.global_region()->make_subregion()->scope; }, "Scope"); \
+         auto& n = r.N(); auto& t = r.PICK2(); r.done(*sc.FN(n, t));)
 #define UDT_DECL(FN, SORT2, PICK2) \
-   ENTRY("Udt::" #FN "(Name," SORT2 ")", auto& preg = r.R(); auto& u = r.fresh(*L.make_class(preg), "Class"); auto& n = r.N(); auto& t = r.PICK2(); \
-         r.done(*u.FN(n, t));)
+   ENTRY("Udt::" #FN "(Name," SORT2 ")", auto& preg = r.R(); auto& u = r.shared_container<impl::Class>([&] { return L.make_class(preg); }, "Class"); \
+         auto& n = r.N(); auto& t = r.PICK2(); r.done(*u.FN(n, t));)
 
 namespace {
    // one full read of the type of an expression list: every component, by index and by traversal (what a client does when it
@@ -1655,7 +1825,11 @@ namespace {
 static void register_container_entries()
 {
    ENTRY("Region::make_subregion()", auto& reg = r.fresh(*r.c.unit.global_region()->make_subregion(), "Region"); r.done(*reg.make_subregion());)
-   REGION_DECL(declare_alias, "Type", T) REGION_DECL(declare_var, "Type", T) REGION_DECL(declare_field, "Type", T)
+   // (an alias of a type has the type of that type -- `typename` whatever the aliasee: in one region a second alias of the same name
+   //  is a redeclaration, so the two requests of the `#near-equal` form go to regions of their own)
+   ENTRY("Region::declare_alias(Name,Type)", auto& reg = r.fresh(*r.c.unit.global_region()->make_subregion(), "Region"); auto& n = r.N(); auto& t = r.T();
+         r.done(*reg.declare_alias(n, t));)
+   REGION_DECL(declare_var, "Type", T) REGION_DECL(declare_field, "Type", T)
    REGION_DECL(declare_bitfield, "Type", T) REGION_DECL(declare_type, "Type", T) REGION_DECL(declare_fun, "Function", FN)
    REGION_DECL(declare_primary_template, "Forall", FA) REGION_DECL(declare_secondary_template, "Forall", FA)
    SCOPE_DECL(make_alias, "Expr", E) SCOPE_DECL(make_var, "Type", T) SCOPE_DECL(make_field, "Type", T) SCOPE_DECL(make_bitfield, "Type", T)
@@ -1677,7 +1851,9 @@ static void register_container_entries()
    SCOPE_REDECL(make_bitfield, "Type", T, "Bitfield") SCOPE_REDECL(make_typedecl, "Type", T, "Typedecl")
    SCOPE_REDECL(make_fundecl, "Function", FN, "Fundecl") SCOPE_REDECL(make_primary_template, "Forall", FA, "Template")
    SCOPE_REDECL(make_secondary_template, "Forall", FA, "Template")
-   UDT_DECL(declare_alias, "Type", T) UDT_DECL(declare_field, "Type", T) UDT_DECL(declare_bitfield, "Type", T) UDT_DECL(declare_var, "Type", T)
+   ENTRY("Udt::declare_alias(Name,Type)", auto& preg = r.R(); auto& u = r.fresh(*L.make_class(preg), "Class"); auto& n = r.N(); auto& t = r.T();
+         r.done(*u.declare_alias(n, t));)
+   UDT_DECL(declare_field, "Type", T) UDT_DECL(declare_bitfield, "Type", T) UDT_DECL(declare_var, "Type", T)
    UDT_DECL(declare_type, "Type", T) UDT_DECL(declare_fun, "Function", FN) UDT_DECL(declare_primary_template, "Forall", FA)
    UDT_DECL(declare_secondary_template, "Forall", FA)
    ENTRY("Class::declare_base(Type)", auto& preg = r.R(); auto& k = r.fresh(*L.make_class(preg), "Class"); auto& t = r.T(); r.done(*k.declare_base(t));)
@@ -1686,12 +1862,34 @@ static void register_container_entries()
          r.extra(static_cast<const ipr::Parameter_list&>(m.inputs), "Parameter_list"); auto& n = r.N(); auto& t = r.T(); r.done(*m.inputs.add_member(n, t));)
    ENTRY("Mapping::param(Name,Type)", auto& reg = r.R(); auto& l = r.LVL(); auto& m = r.fresh(*L.make_mapping(reg, l), "Mapping");
          auto& n = r.N(); auto& t = r.T(); r.done(*m.param(n, t));)
+   // A member added to a list that already has one whose KEY it repeats -- the same name and the same type (`#after-same-key`), the same
+   // name with another type, another name with the same type, both unnamed with the same type: every addition yields a NEW member at
+   // the end (position 1 here), the list holds both, the earlier member (last operand) is not answered again
+#define SECOND_PARAM(KEY, FORM, ADD, N1, T1, N2, T2) \
+   ENTRY(KEY FORM, auto& reg = r.R(); auto& l = r.LVL(); auto& m = r.fresh(*L.make_mapping(reg, l), "Mapping"); \
+         if (std::string(KEY).find("Parameter_list") != std::string::npos) r.extra(static_cast<const ipr::Parameter_list&>(m.inputs), "Parameter_list"); \
+         auto& n = r.N(); auto& t = r.T(); auto& n2 = r.N(); auto& t2 = r.T(); auto& none = static_cast<const ipr::Name&>(L.get_identifier(u8"")); \
+         (void) n; (void) n2; (void) t2; (void) none; \
+         r.fresh(*m.ADD(N1, T1), "Parameter"); r.done(*m.ADD(N2, T2));)
+#define SECOND_PARAMS(KEY, ADD) \
+   SECOND_PARAM(KEY, "#after-same-key", ADD, n, t, n, t) SECOND_PARAM(KEY, "#after-same-name", ADD, n, t2, n, t) \
+   SECOND_PARAM(KEY, "#after-same-type", ADD, n2, t, n, t) SECOND_PARAM(KEY, "#both-unnamed", ADD, none, t, none, t)
+   SECOND_PARAMS("Parameter_list::add_member(Name,Type)", inputs.add_member) SECOND_PARAMS("Mapping::param(Name,Type)", param)
+#define SECOND_ENUMERATOR(FORM, N1, N2) \
+   ENTRY("Enum::add_member(Name)" FORM, auto& preg = r.R(); auto& e = r.fresh(*L.make_enum(preg, ipr::Enum::Kind::Scoped), "Enum"); auto& n = r.N(); auto& n2 = r.N(); \
+         auto& none = static_cast<const ipr::Name&>(L.get_identifier(u8"")); (void) n; (void) n2; (void) none; \
+         r.fresh(*e.add_member(N1), "Enumerator"); r.done(*e.add_member(N2));)
+   SECOND_ENUMERATOR("#after-same-key", n, n) SECOND_ENUMERATOR("#after-other-name", n2, n) SECOND_ENUMERATOR("#both-unnamed", none, none)
+#define SECOND_BASE(FORM, T1) \
+   ENTRY("Class::declare_base(Type)" FORM, auto& preg = r.R(); auto& k = r.fresh(*L.make_class(preg), "Class"); auto& t = r.T(); auto& t2 = r.T(); (void) t2; \
+         r.fresh(*k.declare_base(T1), "Base_type"); r.done(*k.declare_base(t));)
+   SECOND_BASE("#after-same-key", t) SECOND_BASE("#after-other-type", t2)
    ENTRY("Block::new_handler(Name,Type)", auto& reg = r.R(); auto& b = r.fresh(*L.make_block(reg), "Block"); auto& n = r.N(); auto& t = r.T();
          r.done(*b.new_handler(n, t));)
    ENTRY("Block::add_stmt(Expr)", auto& reg = r.R(); auto& b = r.fresh(*L.make_block(reg), "Block"); auto& e = r.E(); b.add_stmt(e);
-         r.done(static_cast<const ipr::Block&>(b));)
+         r.done(b);)
    ENTRY("handler_block::add_stmt(Expr)", auto& reg = r.R(); auto& b = *L.make_block(reg); auto& h = r.fresh(*b.new_handler(*r.c.names[0], *r.c.types[0]), "Handler");
-         auto& e = r.E(); h.body().add_stmt(e); r.done(static_cast<const ipr::Handler&>(h).body());)
+         auto& e = r.E(); h.body().add_stmt(e); r.done(h.body());)
    ENTRY("Expr_list::push_back(Expr)", auto& xl = r.fresh(*L.make_expr_list(), "Expr_list"); auto& e = r.E(); xl.push_back(&e);
          r.done(static_cast<const ipr::Expr_list&>(xl));)
    // members whose type is assigned / changed / linked AFTER they were added and after the type of the list was read once:
@@ -1707,7 +1905,13 @@ static void register_container_entries()
          auto& c = r.E(); auto& b = r.E(); w.control = &c; w.stmt = &b;
          r.done(static_cast<const ipr::Expr_list&>(xl));)
    ENTRY("Module::make_unit()", r.args.push_back(r.c.ob.show(static_cast<const ipr::Module&>(r.c.module))); r.sorts.push_back("Module");
-         r.done(static_cast<const ipr::Module_unit&>(*r.c.module.make_unit()));)
+         r.done(*r.c.module.make_unit());)
+   // units and modules as a client makes them: a module with its interface unit, the interface unit of a module, a plain translation unit
+   // (their member sequences -- imports, purview, exported modules, exported declarations -- are filled in the `#lists-filled` form)
+   ENTRY("Module::Module(Lexicon)", r.c.module_store.emplace_back(L); r.done(static_cast<const ipr::Module&>(r.c.module_store.back()));)
+   ENTRY("Module::Module(Lexicon)#interface-unit", r.c.module_store.emplace_back(L); auto& m = r.c.module_store.back();
+         r.extra(static_cast<const ipr::Module&>(m), "Module"); r.done(m.iface);)
+   ENTRY("Translation_unit::Translation_unit(Lexicon)", r.c.unit_store.push_back(std::make_unique<impl::Translation_unit>(L)); r.done(*r.c.unit_store.back());)
    // -- attr_factory
    ENTRY("attr_factory::make_basic_attribute(Token)", auto& t = r.TOK(); r.done(r.c.attrs.make_basic_attribute(t));)
    ENTRY("attr_factory::make_scoped_attribute(Token,Token)", auto& s = r.TOK(); auto& m = r.TOK(); r.done(r.c.attrs.make_scoped_attribute(s, m));)
@@ -1773,16 +1977,22 @@ namespace {
          lasttype = verif::guard([&] { return c.ob.show(ty.elements().get(ty.elements().size() - 1)); });
          lastelem = verif::guard([&] { return c.ob.show(members.get(members.size() - 1)); });
       }
-      std::string m = "[", mt = "[";
+      std::string m = "[", mt = "[", mp = "[";
       std::size_t i = 0;
       for (auto& d : members) {
-         if (i++) { m += ','; mt += ','; }
+         if (i++) { m += ','; mt += ','; mp += ','; }
          m += c.ob.show(d);
          mt += verif::guard([&] { return c.ob.show(d.type()); });
+         // the position a member reports (parameters, enumerators, base-class subobjects): its index
+         const ipr::Node& nd = d;
+         if (auto* x = dynamic_cast<const ipr::Parameter*>(&nd)) mp += '#' + std::to_string(static_cast<std::size_t>(x->position()));
+         else if (auto* x = dynamic_cast<const ipr::Enumerator*>(&nd)) mp += '#' + std::to_string(static_cast<std::size_t>(x->position()));
+         else if (auto* x = dynamic_cast<const ipr::Base_type*>(&nd)) mp += '#' + std::to_string(static_cast<std::size_t>(x->position()));
+         else mp += '-';
       }
       std::cout << "G obs " << seqname << " size=" << c.ob.show(members.size()) << " type=" << c.ob.show(ty) << " elems=" << m << "]"
                 << " elemtypes=" << mt << "]" << " types=" << c.ob.show(ty.elements()) << " tsize=" << c.ob.show(ty.size())
-                << " lasttype=" << lasttype << " lastelem=" << lastelem << '\n';
+                << " lasttype=" << lasttype << " lastelem=" << lastelem << " positions=" << mp << "]" << '\n';
    }
 
    void grow(Ctx& c, const std::string& kind, int n, int salt)
@@ -1808,9 +2018,33 @@ namespace {
             const ipr::Decl* d = nullptr;
             Prev p{};
             bool redecl = false;
+            bool near = false;
             if (not prev.empty() and g() % 3 == 0) {
                p = prev[g() % prev.size()];
                redecl = true;
+            }
+            else if (not prev.empty() and g() % 4 == 0) {
+               // a function declared again under the same name with a type that differs ONLY in its exception specification / only in
+               // its transfer / only in the qualification of its target: an overload with a type of its own
+               for (std::size_t tries = 0; tries < prev.size() and not near; ++tries) {
+                  const Prev& q = prev[g() % prev.size()];
+                  if (q.k != 4) continue;
+                  auto& f = *static_cast<const ipr::Function*>(q.t);
+                  const ipr::Function* f2 = nullptr;
+                  switch (g() % 3) {
+                  case 0: f2 = &L.get_function(f.source(), f.target(), static_cast<const ipr::Node*>(&f.throws()) == static_cast<const ipr::Node*>(&L.false_value()) ? static_cast<const ipr::Expr&>(L.true_value()) : E(), f.transfer()); break;
+                  case 1: f2 = &L.get_function(f.source(), f.target(), f.throws(), *c.transfers[2 + g() % 2]); break;
+                  default: f2 = &L.get_function(f.source(), L.get_qualified(Qualifiers{std::uintptr_t{1} + g() % 3}, f.target()), f.throws(), f.transfer()); break;
+                  }
+                  auto it = kind_of.find({q.n, f2});
+                  if (it != kind_of.end()) continue;               // (that type is taken under this name: that would be a redeclaration)
+                  p = q; p.t = f2;
+                  kind_of[{p.n, p.t}] = 4;
+                  prev.push_back(p);
+                  near = true;
+                  ++c.stats["growth: functions declared again with a type differing in one component"];
+               }
+               if (not near) continue;
             }
             else {
                for (int attempt = 0; attempt < 16; ++attempt) {
@@ -1841,7 +2075,7 @@ namespace {
             case 4: d = reg->declare_fun(*p.n, *static_cast<const ipr::Function*>(p.t)); break;
             default: d = reg->declare_primary_template(*p.n, *static_cast<const ipr::Forall*>(p.t)); break;
             }
-            std::cout << "G add " << id << ' ' << c.ob.show(*d) << " type=" << c.ob.show(d->type()) << " redecl=" << redecl << '\n';
+            std::cout << "G add " << id << ' ' << c.ob.show(*d) << " type=" << c.ob.show(d->type()) << " given=" << c.ob.show(*p.t) << " redecl=" << redecl << " near=" << near << '\n';
             obs_growth(c, id.c_str(), sc.elements(), static_cast<const ipr::Product&>(*ipr::util::view<ipr::Product>(sc.type())));
          }
       }
@@ -1851,9 +2085,29 @@ namespace {
          const std::string id = c.ob.show(pl);
          std::cout << "G new plist " << id << '\n';
          obs_growth(c, id.c_str(), pl.elements(), pl.type());
+         // additions repeat the KEYS of earlier members: the same name and the same type (three in ten), the same name with another type,
+         // another name with the same type, no name at all (with a new type / with an earlier type) -- each is a new parameter at the end
+         std::vector<std::pair<const ipr::Name*, const ipr::Type*>> prev;
+         const ipr::Name& unnamed = L.get_identifier(u8"");
          for (int i = 0; i < n; ++i) {
-            const ipr::Parameter* p = m->param(N(), T());
-            std::cout << "G add " << id << ' ' << c.ob.show(*p) << " type=" << c.ob.show(p->type()) << '\n';
+            const ipr::Name* pn = &N();
+            const ipr::Type* pt = &T();
+            const char* how = "fresh";
+            if (not prev.empty()) {
+               const auto& q = prev[g() % prev.size()];
+               switch (g() % 10) {
+               case 0: case 1: case 2: pn = q.first; pt = q.second; how = "same-name-same-type"; break;
+               case 3: pn = q.first; how = "same-name"; break;
+               case 4: pt = q.second; how = "same-type"; break;
+               case 5: pn = &unnamed; how = "unnamed"; break;
+               case 6: pn = &unnamed; pt = q.second; how = "unnamed-same-type"; break;
+               default: break;
+               }
+            }
+            prev.emplace_back(pn, pt);
+            const ipr::Parameter* p = m->param(*pn, *pt);
+            ++c.stats[std::string("growth: parameters added, key ") + how];
+            std::cout << "G add " << id << ' ' << c.ob.show(*p) << " type=" << c.ob.show(p->type()) << " given=" << c.ob.show(*pt) << " key=" << how << '\n';
             obs_growth(c, id.c_str(), pl.elements(), pl.type());
          }
       }
@@ -1907,9 +2161,16 @@ namespace {
          const std::string id = c.ob.show(sc);
          std::cout << "G new enum " << id << '\n';
          obs_growth(c, id.c_str(), sc.elements(), static_cast<const ipr::Product&>(*ipr::util::view<ipr::Product>(sc.type())));
+         std::vector<const ipr::Name*> prev;
          for (int i = 0; i < n; ++i) {
-            const ipr::Enumerator* e = en->add_member(N());
-            std::cout << "G add " << id << ' ' << c.ob.show(*e) << " type=" << c.ob.show(e->type()) << '\n';
+            // (three additions in ten repeat the name of an earlier enumerator, one in ten has no name)
+            const ipr::Name* en_name = &N();
+            const char* how = "fresh";
+            if (not prev.empty() and g() % 10 < 3) { en_name = prev[g() % prev.size()]; how = "same-name"; }
+            else if (g() % 10 == 0) { en_name = &L.get_identifier(u8""); how = "unnamed"; }
+            prev.push_back(en_name);
+            const ipr::Enumerator* e = en->add_member(*en_name);
+            std::cout << "G add " << id << ' ' << c.ob.show(*e) << " type=" << c.ob.show(e->type()) << " given=" << c.ob.show(static_cast<const ipr::Type&>(*en)) << " key=" << how << '\n';
             obs_growth(c, id.c_str(), sc.elements(), static_cast<const ipr::Product&>(*ipr::util::view<ipr::Product>(sc.type())));
          }
       }
@@ -1919,9 +2180,15 @@ namespace {
          const std::string id = c.ob.show(sc);
          std::cout << "G new bases " << id << '\n';
          obs_growth(c, id.c_str(), sc.elements(), static_cast<const ipr::Product&>(*ipr::util::view<ipr::Product>(sc.type())));
+         std::vector<const ipr::Type*> prev;
          for (int i = 0; i < n; ++i) {
-            const ipr::Base_type* b = k->declare_base(T());
-            std::cout << "G add " << id << ' ' << c.ob.show(*b) << " type=" << c.ob.show(b->type()) << '\n';
+            // (three additions in ten repeat the type -- hence the name -- of an earlier base)
+            const ipr::Type* bt = &T();
+            const char* how = "fresh";
+            if (not prev.empty() and g() % 10 < 3) { bt = prev[g() % prev.size()]; how = "same-type"; }
+            prev.push_back(bt);
+            const ipr::Base_type* b = k->declare_base(*bt);
+            std::cout << "G add " << id << ' ' << c.ob.show(*b) << " type=" << c.ob.show(b->type()) << " given=" << c.ob.show(*bt) << " key=" << how << '\n';
             obs_growth(c, id.c_str(), sc.elements(), static_cast<const ipr::Product&>(*ipr::util::view<ipr::Product>(sc.type())));
          }
       }
@@ -1999,6 +2266,41 @@ int main(int argc, char** argv)
             print_closure(c, m.result, m.watermark, 2, seen);
          }
          std::cout << "LEND\n";
+      }
+      else if (op == "scale") {
+         // SCALE: one Lexicon of its own is given `n` variables with pairwise distinct 31-character names (more spellings than one block of
+         // the string storage holds); afterwards every declaration, its name and the String of that name are read again:
+         //     Z scale n=<n> wrong_names=<k> wrong_strings=<k> not_unified=<k> first=<index>:<built from>:<reports>
+         std::size_t n = 0;
+         is >> n;
+         impl::Lexicon lex2;
+         impl::Translation_unit unit2{lex2};
+         auto spelled = [](std::size_t i) { char b[40]; std::snprintf(b, sizeof b, "translation_unit_member_%07zu", i); std::u8string w; for (const char* p = b; *p; ++p) w += static_cast<char8_t>(*p); return w; };
+         std::vector<const ipr::Var*> vars;
+         std::vector<const ipr::String*> strs;
+         for (std::size_t i = 0; i < n; ++i) {
+            const std::u8string w = spelled(i);
+            const ipr::String& s = lex2.get_string(w);
+            strs.push_back(&s);
+            vars.push_back(unit2.global_region()->declare_var(lex2.get_identifier(s), i % 2 ? lex2.int_type() : lex2.char_type()));
+         }
+         std::size_t wrong_names = 0, wrong_strings = 0, not_unified = 0;
+         std::string first = "-";
+         auto chars = [](const ipr::String& s) { auto v = s.characters(); return std::u8string(v.begin(), v.end()); };
+         auto narrow = [](const std::u8string& w) { return std::string(w.begin(), w.end()); };
+         for (std::size_t i = 0; i < n; ++i) {
+            const std::u8string w = spelled(i);
+            const auto* id = dynamic_cast<const ipr::Identifier*>(&vars[i]->name());
+            const bool name_ok = id != nullptr and chars(id->string()) == w;
+            const bool str_ok = chars(*strs[i]) == w;
+            const bool uni_ok = id != nullptr and &lex2.get_identifier(w) == id and &lex2.get_string(w) == strs[i];
+            if (not name_ok) ++wrong_names;
+            if (not str_ok) ++wrong_strings;
+            if (not uni_ok) ++not_unified;
+            if (first == "-" and not (name_ok and str_ok and uni_ok))
+               first = std::to_string(i) + ":" + narrow(w) + ":" + (id != nullptr ? narrow(chars(id->string())) : std::string("?")) + "/" + narrow(chars(*strs[i]));
+         }
+         std::cout << "Z scale n=" << n << " wrong_names=" << wrong_names << " wrong_strings=" << wrong_strings << " not_unified=" << not_unified << " first=" << first << '\n';
       }
       else if (op == "grow") {
          std::string kind;
